@@ -7,6 +7,7 @@ mod engine_hist;
 mod engine_jbytes;
 mod engine_opts;
 mod engine_ssi;
+mod engine_trace;
 mod lin;
 mod engine_views;
 mod exec;
@@ -106,6 +107,9 @@ fn main() {
         "jbytes" => engine_jbytes::main(&args),
         "jbytes-replay" => engine_jbytes::replay_main(&args),
         "jbytes-worker" => engine_jbytes::worker_main(&args),
+        "trace" => engine_trace::main(&args),
+        "trace-child" => engine_trace::child_main(&args),
+        "trace-replay" => engine_trace::replay_main(&args),
         "ssi" => engine_ssi::main(&args),
         "ssi-replay" => engine_ssi::replay_main(&args),
         "hist" => engine_hist::main(&args),
